@@ -407,6 +407,13 @@ func observePlain(pm *openfgav1.AuthorizationModel, labels []string, withCycles 
 	}
 	sort.Strings(o.edges)
 
+	// the order of calls on one graph object is the caller's business: for every
+	// other model the cycles are asked for before the graph is reversed (whatever
+	// GetCycles leaves behind on the object must not leak into its reversal)
+	cyclesFirst := withCycles && g.Nodes().Len() <= 40 && len(o.dot)%2 == 0
+	if cyclesFirst {
+		o.cycles = cycleFlags(g.GetCycles())
+	}
 	// Reversed
 	rev, err := g.Reversed()
 	if err != nil {
@@ -414,6 +421,31 @@ func observePlain(pm *openfgav1.AuthorizationModel, labels []string, withCycles 
 		return
 	}
 	o.revDot = rev.GetDOT()
+	// reversing is a read: the original's lines keep their end points, and a
+	// second reversal of the same object - before anything else happens to it
+	// or to the first reversal - gives the same reversed graph
+	if lines2, msg := collect(g); msg == "" {
+		var a, b []string
+		for _, l := range lines {
+			a = append(a, lineKey(o.names[l.from], o.names[l.to], l.e)+fmt.Sprint(" ", l.e.From().ID(), ">", l.e.To().ID()))
+		}
+		for _, l := range lines2 {
+			b = append(b, lineKey(o.names[l.from], o.names[l.to], l.e)+fmt.Sprint(" ", l.e.From().ID(), ">", l.e.To().ID()))
+		}
+		sort.Strings(a)
+		sort.Strings(b)
+		if strings.Join(a, "\n") != strings.Join(b, "\n") {
+			o.revOK = "the lines of the original graph changed when it was reversed"
+		}
+		for _, l := range lines2 {
+			if l.e.From().ID() != l.from || l.e.To().ID() != l.to {
+				o.revOK = "after Reversed() a line of the original graph reports other end points than the ones it is stored under"
+			}
+		}
+	}
+	if again, err := g.Reversed(); err != nil || again.GetDOT() != o.revDot {
+		o.revOK = "reversing the same graph a second time, right after the first, gives a different DOT"
+	}
 	if rev.GetDrawingDirection() == g.GetDrawingDirection() {
 		o.revOK = "drawing direction not flipped"
 	}
@@ -488,9 +520,14 @@ func observePlain(pm *openfgav1.AuthorizationModel, labels []string, withCycles 
 	// cycle enumeration is exponential in the number of cycles (C08's subject,
 	// not C17's): only on graphs of moderate size
 	if withCycles && g.Nodes().Len() <= 40 {
-		o.cycles = cycleFlags(g.GetCycles())
+		if !cyclesFirst {
+			o.cycles = cycleFlags(g.GetCycles())
+		}
 		o.revCyc = cycleFlags(rev.GetCycles())
 		o.rev2Cyc = cycleFlags(rev2.GetCycles())
+		if again := cycleFlags(g.GetCycles()); again != o.cycles {
+			o.revOK = "GetCycles() on the same graph answers differently the second time: " + o.cycles + " then " + again
+		}
 	}
 	return o
 }
@@ -707,6 +744,13 @@ func (c *plainCtx) check0(cfg simrt.Config) ([]mismatch, simrt.Stats, string) {
 		}
 		if acyclic && cyc != "{false false}" {
 			add("plain.cycles_reversed", "the %s graph of an acyclic model reports cycles: %s", name, cyc)
+		}
+		// reversing flips every edge and nothing else: the cycles of the reversed
+		// graph are the cycles of the graph walked backwards, over lines of the
+		// same kinds, so the two graphs classify them alike - whichever of them
+		// was asked first
+		if o.cycles != "" && cyc != o.cycles {
+			add("plain.cycles_reversed", "the %s graph reports cycles %s, the graph itself %s", name, cyc, o.cycles)
 		}
 	}
 	if o.cycles != c.canon.cycles {
